@@ -6,6 +6,7 @@ import (
 	"fmt"
 	"os"
 	"path/filepath"
+	"sort"
 	"strconv"
 	"strings"
 )
@@ -118,6 +119,7 @@ type Clause struct {
 	Es   []Expr // decreases tuple, modifies list
 	Text string
 	Name string // ghost / step / exit target
+	LHS  Expr   // exit/step target when it is "owner.$field"
 	T    *TypeExpr
 	Line int
 }
@@ -148,6 +150,10 @@ type FuncContract struct {
 	File      string
 	Line      int
 	Asserts   []*Clause // "assert" hints keyed by source text (rare)
+	PrivReq   []*Clause // assumed at body entry only (unfolding of an abstract predicate)
+	PrivEns   []*Clause // checked at body exit only
+	Template  []QVar    // for templates: the parameters a function must have
+	IsTempl   bool
 }
 
 type SpecFunc struct {
@@ -188,6 +194,7 @@ type TypeInv struct {
 }
 
 type Contracts struct {
+	Templates   []*FuncContract
 	Funcs       map[string]*FuncContract
 	Specs       map[string]*SpecFunc // by name (global namespace; also pkg.name)
 	Lemmas      []*Lemma
@@ -715,6 +722,7 @@ var clauseKeywords = map[string]bool{
 	"invariant": true, "ghost": true, "step": true, "exit": true, "func": true, "spec": true,
 	"lemma": true, "axiom": true, "field": true, "type": true, "noreturn": true, "allocates": true,
 	"trigger": true, "params": true, "opaque": true, "havocs": true, "maypanic": true,
+	"package": true, "private": true, "template": true, "framed": true, "notemplate": true,
 }
 
 type rawLine struct {
@@ -807,7 +815,13 @@ func loadContracts(root string, shorts []string) (*Contracts, error) {
 	C := &Contracts{Funcs: map[string]*FuncContract{}, Specs: map[string]*SpecFunc{}, GhostFields: map[string]*GhostField{}}
 	type src struct{ pkg, path string }
 	var files []src
-	for _, s := range shorts {
+	_ = shorts
+	var allShorts []string
+	for s := range scopeDirs {
+		allShorts = append(allShorts, s)
+	}
+	sort.Strings(allShorts)
+	for _, s := range allShorts {
 		files = append(files, src{s, filepath.Join(root, scopeDirs[s], "zz_contracts_verif.go")})
 	}
 	// library contracts live in /verif/govc/stdlib_contracts/*.txt (same language, package given by "package" line)
@@ -875,7 +889,7 @@ func (C *Contracts) parseStatements(pkg, path string, stmts []rawLine) (err erro
 		}
 		switch kw {
 		case "package":
-			pkg = rest
+			pkg = strings.TrimSpace(rest)
 		case "func":
 			// "func pkg.Name" | "func Name" | "func Recv.Name" ; optional "(params)" for library functions
 			name := rest
@@ -1018,6 +1032,49 @@ func (C *Contracts) parseStatements(pkg, path string, stmts []rawLine) (err erro
 				return cerr(st, "%v", perr)
 			}
 			curLemma.Trig = append(curLemma.Trig, es)
+		case "private":
+			if cur == nil {
+				return cerr(st, "private outside func")
+			}
+			sub := "requires"
+			if strings.HasPrefix(rest, "ensures") {
+				sub = "ensures"
+			} else if !strings.HasPrefix(rest, "requires") {
+				return cerr(st, "private must be followed by requires or ensures")
+			}
+			rest = strings.TrimSpace(rest[len(sub):])
+			c, err := mkClause(sub, true)
+			if err != nil {
+				return err
+			}
+			if sub == "requires" {
+				cur.PrivReq = append(cur.PrivReq, c)
+			} else {
+				cur.PrivEns = append(cur.PrivEns, c)
+			}
+		case "template":
+			// template name(param T, ...): clauses that follow apply to every function of the package having these parameters
+			toks, err := lex(rest)
+			if err != nil {
+				return cerr(st, "%v", err)
+			}
+			p := &parser{toks: toks, src: rest}
+			t := &FuncContract{Pkg: pkg, Flags: map[string]bool{}, File: path, Line: st.line, IsTempl: true}
+			perr := func() (err error) {
+				defer func() {
+					if r := recover(); r != nil {
+						err = fmt.Errorf("%v", r)
+					}
+				}()
+				t.Key = p.expectIdent()
+				t.Template = parseParams(p)
+				return nil
+			}()
+			if perr != nil {
+				return cerr(st, "%v", perr)
+			}
+			C.Templates = append(C.Templates, t)
+			cur, curLoop, curLemma = t, nil, nil
 		case "requires", "ensures":
 			c, err := mkClause(kw, true)
 			if err != nil {
@@ -1121,11 +1178,21 @@ func (C *Contracts) parseStatements(pkg, path string, stmts []rawLine) (err erro
 						err = fmt.Errorf("%v", rr)
 					}
 				}()
-				c.Name = p.expectIdent()
 				if kw == "ghost" {
+					c.Name = p.expectIdent()
 					c.T = p.parseType()
 					p.expectOp("=")
 				} else {
+					lhs := p.parsePostfix()
+					switch l := lhs.(type) {
+					case *EIdent:
+						c.Name = l.Name
+					case *ESel:
+						c.LHS = l
+						c.Name = l.Sel
+					default:
+						return fmt.Errorf("bad assignment target in %q", rest)
+					}
 					p.expectOp(":=")
 				}
 				c.E = p.parseExpr()
@@ -1152,7 +1219,7 @@ func (C *Contracts) parseStatements(pkg, path string, stmts []rawLine) (err erro
 			case "exit":
 				cur.Exits = append(cur.Exits, c)
 			}
-		case "nopanic", "trusted", "inline", "pure", "noreturn", "allocates", "opaque", "maypanic":
+		case "nopanic", "trusted", "inline", "pure", "noreturn", "allocates", "opaque", "maypanic", "framed", "notemplate":
 			if cur == nil {
 				return cerr(st, "%s outside func", kw)
 			}
